@@ -58,6 +58,11 @@ theorem validators_come_from_the_store :
       ["vcd.getValidator(ctx, msg.ValidatorAddress)", "vcd.getValidator(ctx, msg.ValidatorDstAddress)"] := by
   decide
 
+/-- the voting-power test is applied to every MsgDelegate and every MsgBeginRedelegate: it is an
+    unconditional statement of its case, not nested under some exemption (jailed validators, self-bonds, …) -/
+theorem cap_test_is_unconditional :
+    Sif.Generated.Ante.capTests = ["stakingtypes.MsgDelegate: true", "stakingtypes.MsgBeginRedelegate: true"] := by decide
+
 /-- its type switch still has the four staking cases -/
 theorem commission_cases_present :
     ["stakingtypes.MsgCreateValidator", "stakingtypes.MsgEditValidator", "stakingtypes.MsgDelegate",
